@@ -218,6 +218,17 @@ def _rng(t):
         return (-BIG, BIG)
     if k == 'ite':
         l1, h1 = rng(t[2]); l2, h2 = rng(t[3])
+        if (l1 < 0 or l2 < 0 or h1 >= BIG or h2 >= BIG) and t[1][0] in ('le', 'lt', 'eq', 'band', 'bnot'):
+            # a branch that looks unbounded may be bounded by the condition it sits under (`if 48 <= c && c <= 57 { c - 48 }`)
+            global CTX
+            saved = CTX
+            try:
+                r1 = dict(saved) if saved else {}
+                refine(t[1], r1); CTX = r1; l1, h1 = rng(t[2])
+                r2 = dict(saved) if saved else {}
+                refine(bnot(t[1]), r2); CTX = r2; l2, h2 = rng(t[3])
+            finally:
+                CTX = saved
         return (min(l1, l2), max(h1, h2))
     if k == 'trunc': return (0, (1 << t[2]) - 1)
     if k == 'wrap': return (0, t[2] - 1)
@@ -402,6 +413,46 @@ def cmp(op, a, b):
         if hi <= 0: return TRUE
         if lo > 0: return FALSE
     return (op, a, b)
+
+def hexcond(c):
+    """c is an ASCII hexadecimal digit (either case)"""
+    def in_(lo, hi): return b_and(cmp('le', C(lo), c), cmp('le', c, C(hi)))
+    return b_or(in_(48, 57), b_or(in_(65, 70), in_(97, 102)))
+
+def hexval(c):
+    """value of the hexadecimal digit c (0 where c is none: callers hold hexcond(c) as a refusal)"""
+    def in_(lo, hi): return b_and(cmp('le', C(lo), c), cmp('le', c, C(hi)))
+    return ite(in_(48, 57), sub(c, C(48)), ite(in_(65, 70), sub(c, C(55)), ite(in_(97, 102), sub(c, C(87)), ZERO)))
+
+def or_parts(t):
+    if t[0] == 'or': return or_parts(t[1]) + or_parts(t[2])
+    return [t]
+
+def equal_parts(a, b, facts=(), max_split=12):
+    """a == b for bit-packed values: both sides are split into their `|` components, the components are grouped by the
+    leaves they mention (a component of a packed field depends on one input), and the groups are compared one by one -
+    so that seven fields with a few case distinctions each are seven small problems instead of one product.  Sound: equal
+    groups give equal disjunctions."""
+    if a == b: return True, None
+    while a[0] == 'call' and b[0] == 'call' and a[1] == b[1] and len(a) == len(b) == 3: a, b = a[2], b[2]
+    def leaves(t): return frozenset(u for u in subterms(t) if u[0] in ('a', 'sel', 'len') and not (u[0] == 'a' and any(v[0] == 'sel' and v[1] == u for v in subterms(t))))
+    def groups(t):
+        g = {}
+        for p_ in or_parts(t):
+            if p_ == ZERO: continue
+            g.setdefault(leaves(p_), []).append(p_)
+        out = {}
+        for k_, ps in g.items():
+            r = ZERO
+            for p_ in ps: r = bor(r, p_)
+            out[k_] = r
+        return out
+    ga, gb = groups(a), groups(b)
+    if set(ga) != set(gb) or len(ga) < 2: return equal(a, b, facts, max_split)
+    for k_ in ga:
+        ok, w = equal(ga[k_], gb[k_], facts, max_split)
+        if not ok: return False, w
+    return True, None
 
 # ---------------------------------------------------------------- traversal / substitution
 
